@@ -1095,7 +1095,13 @@ fn main() {
             rep.sample(json!({"path": c.path, "kind": c.kind, "policies": pols_str(&c.policies), "outcomes": out.outcomes}));
         }
         for f in out.failures {
-            rep.fail(f);
+            // every failure is counted by class; at most 5 witnesses per class are kept, so that the many
+            // witnesses of a known class can never crowd an unknown one out of the bounded report
+            let k = format!("failure-class:{}:{}", f.kind, f.class);
+            rep.count(&k);
+            if rep.histogram[&k] <= 5 {
+                rep.fail(f);
+            }
         }
     };
 
